@@ -13,7 +13,11 @@ import (
 	"strings"
 	"time"
 
+	"github.com/6tail/lunar-go/FotoUtil"
 	"github.com/6tail/lunar-go/HolidayUtil"
+	"github.com/6tail/lunar-go/LunarUtil"
+	"github.com/6tail/lunar-go/ShouXingUtil"
+	"github.com/6tail/lunar-go/SolarUtil"
 	"github.com/6tail/lunar-go/calendar"
 )
 
@@ -170,6 +174,26 @@ func Construct(o Op) interface{} {
 		return calendar.NewSolarFromYmd(o.a(0), o.a(1), o.a(2)).GetSalaryRate()
 	case "week":
 		return calendar.NewSolarWeekFromYmd(o.a(0), o.a(1), o.a(2), o.a(3)).Next(o.a(4), o.a(5) != 0)
+	case "su_days":
+		return []interface{}{SolarUtil.GetDaysInYear(o.a(0), o.a(1), o.a(2)), SolarUtil.GetDaysOfYear(o.a(0)), SolarUtil.GetDaysOfMonth(o.a(0), o.a(1)), SolarUtil.IsLeapYear(o.a(0)),
+			SolarUtil.GetWeek(o.a(0), o.a(1), o.a(2)), SolarUtil.GetWeeksOfMonth(o.a(0), o.a(1), o.a(3)), SolarUtil.GetJulianDay(o.a(0), o.a(1), o.a(2), o.a(4), o.a(5), o.a(6))}
+	case "su_between":
+		return []interface{}{SolarUtil.GetDaysBetween(o.a(0), o.a(1), o.a(2), o.a(3), o.a(4), o.a(5)),
+			SolarUtil.IsBefore(o.a(0), o.a(1), o.a(2), 0, 0, 0, o.a(3), o.a(4), o.a(5), 0, 0, 0)}
+	case "solar_rel":
+		a := calendar.NewSolar(o.a(0), o.a(1), o.a(2), o.a(3), o.a(4), o.a(5))
+		b := calendar.NewSolar(o.a(6), o.a(7), o.a(8), o.a(9), o.a(10), o.a(11))
+		return []interface{}{a.Subtract(b), b.Subtract(a), a.SubtractMinute(b), a.IsAfter(b), a.IsBefore(b), b.IsBefore(a)}
+	case "lu_day":
+		return []interface{}{LunarUtil.GetDayYi(o.s(0), o.s(1)), LunarUtil.GetDayJi(o.s(0), o.s(1)), LunarUtil.GetDayJiShen(o.a(0), o.s(1)), LunarUtil.GetDayXiongSha(o.a(0), o.s(1)),
+			LunarUtil.GetTimeYi(o.s(1), o.s(2)), LunarUtil.GetTimeJi(o.s(1), o.s(2))}
+	case "lu_xun":
+		return []interface{}{LunarUtil.GetJiaZiIndex(o.s(0)), LunarUtil.GetXunIndex(o.s(0)), LunarUtil.GetXun(o.s(0)), LunarUtil.GetXunKong(o.s(0)),
+			LunarUtil.GetTimeZhiIndex(o.s(1)), LunarUtil.ConvertTime(o.s(1))}
+	case "sx":
+		return []interface{}{ShouXingUtil.CalcShuo(o.f(0)), ShouXingUtil.CalcQi(o.f(0)), ShouXingUtil.QiAccurate2(o.f(0)), ShouXingUtil.DtT(o.f(0))}
+	case "foto_xiu":
+		return FotoUtil.GetXiu(o.a(0), o.a(1))
 	case "week0":
 		return calendar.NewSolarWeekFromYmd(o.a(0), o.a(1), o.a(2), o.a(3))
 	case "smonth0":
